@@ -173,7 +173,7 @@ pub fn storage_fault(rng: &mut Rng, data: &mut Vec<u8>) -> &'static str {
         data.extend_from_slice(b"osu file format v14\n");
         return "fill_empty";
     }
-    match rng.weighted(&[10, 8, 6, 8, 8, 8, 6, 14, 4, 3, 3, 4, 3, 3]) {
+    match rng.weighted(&[10, 8, 6, 8, 8, 8, 6, 14, 4, 3, 3, 4, 3, 3, 7]) {
         0 => {
             let k = rng.usize(data.len() + 1);
             data.truncate(k);
@@ -292,10 +292,45 @@ pub fn storage_fault(rng: &mut Rng, data: &mut Vec<u8>) -> &'static str {
             *data = text.into_bytes();
             "crlf"
         }
-        _ => {
+        13 => {
             let n = 1 + rng.usize(200);
             *data = (0..n).map(|_| rng.below(256) as u8).collect();
             "noise"
+        }
+        _ => {
+            // whole sections written in another order, or one of them written twice (a merge of two
+            // versions of the file): the decoder must not depend on the canonical section order
+            let text = String::from_utf8_lossy(data).into_owned();
+            let mut blocks: Vec<String> = Vec::new();
+            for line in text.split_inclusive('\n') {
+                if line.trim_start().starts_with('[') || blocks.is_empty() {
+                    blocks.push(String::new());
+                }
+                blocks.last_mut().unwrap().push_str(line);
+            }
+            if blocks.len() < 3 {
+                return "section_reorder_none";
+            }
+            if rng.chance(0.5) {
+                let i = 1 + rng.usize(blocks.len() - 1);
+                let j = 1 + rng.usize(blocks.len() - 1);
+                blocks.swap(i, j);
+            } else {
+                let i = 1 + rng.usize(blocks.len() - 1);
+                let mut dup = blocks[i].clone();
+                if dup.contains("Mode:") {
+                    let m = rng.below(4);
+                    dup = dup
+                        .lines()
+                        .map(|l| if l.starts_with("Mode:") { format!("Mode: {m}") } else { l.to_owned() })
+                        .collect::<Vec<_>>()
+                        .join("\n")
+                        + "\n";
+                }
+                blocks.push(dup);
+            }
+            *data = blocks.concat().into_bytes();
+            "section_reorder"
         }
     }
 }
